@@ -106,8 +106,8 @@ def enum_phase(ctx):
     from vfw.props.c01 import ENUM_SPECS
 
     names = [n for n in ops.OPS if n in ops.REVERSIBLE and n not in ("optimize",)]
-    prefix = [{"op": "add_var", "name": 0, "b": (0, 10), "kind": "continuous"}]
-    cases_ = (c for k, c in enumerate(ops.pair_cases(1, ENUM_SPECS, names, in_block=True, per_name=ctx.params["per_name"], prefix=prefix))
+    cases_ = (c for k, c in enumerate(ops.pair_cases(1, ENUM_SPECS, names, in_block=True, per_name=ctx.params["per_name"],
+                                                     prefixes=ops.ENUM_PREFIXES, length=ctx.params.get("length", 2)))
               if k % ctx.n_shards == ctx.shard)
     done = ctx.run_enumeration(cases_, check_case, "history")
     ctx.exhaustive = bool(done)
@@ -122,7 +122,8 @@ def phases(tier):
         return [Phase("hyp", hyp_phase, shards=8, params={"max_examples": 400, "max_ops": 30, "budget_s": 75, "crash_journal": True}),
                 Phase("pairs", enum_phase, shards=8, params={"per_name": 2, "budget_s": 75, "crash_journal": True})]
     return [Phase("hyp", hyp_phase, shards=16, params={"max_examples": 1200, "max_ops": 50, "budget_s": 400, "crash_journal": True}),
-            Phase("pairs", enum_phase, shards=16, params={"per_name": 3, "budget_s": 300, "crash_journal": True})]
+            Phase("pairs", enum_phase, shards=16, params={"per_name": 3, "budget_s": 300, "crash_journal": True}),
+            Phase("triples", enum_phase, shards=16, params={"per_name": 1, "length": 3, "budget_s": 300, "crash_journal": True})]
 
 
 CHECKS = {"history": check_case}
